@@ -89,7 +89,7 @@ Space == {s \in [kinds : KindSeqs, hz : {"num", "fT", "fb"}, pat : {"none", "cha
             /\ (s.pon # "parent" => s.pat = "chain" /\ ~s.pown /\ ~s.reset /\ ~s.stagefirst /\ Len(s.kinds) >= 2)
             /\ (s.pat = "time" => s.hz = "fb")
             /\ (s.stagefirst => ~s.reset /\ s.withInt)
-            /\ (s.pown => ~s.reset /\ ~s.stagefirst /\ s.pat # "time")       \* the first transcribing call is stage.sample(...) on a sub-stage
+            /\ (s.pown => (s.reset => s.valonly) /\ ~s.stagefirst /\ s.pat # "time")       \* the first transcribing call is stage.sample(...) on a sub-stage
             /\ (s.clone => \A i \in 1..Len(s.kinds) : s.kinds[i] = s.kinds[1])
             /\ (s.reset => KindOf(s.kinds[1]).rhs \in {"R2", "R3", "R4", "RA"} /\ ~s.clone)
             /\ (\A i \in 1..Len(s.kinds) : s.kinds[i] = "F" => i = 1 /\ Len(s.kinds) <= 2)
